@@ -259,6 +259,11 @@ impl DB {
 
         // Create table cache
         let table_cache = Arc::new(TableCache::new(options.clone(), 1000));
+        #[cfg(raindb_verif)]
+        let table_cache = Arc::new(TableCache::new(
+            options.clone(),
+            raindb_verif_rt::knob("table_cache_capacity", 1000),
+        ));
 
         // Initialize guarded fields
         let guarded_fields = Arc::new(Mutex::new(GuardedDbFields {
